@@ -303,7 +303,7 @@ type evidence struct {
 func (c *Ctx) Finish() int {
 	c.mu.Lock()
 	defer c.mu.Unlock()
-	if c.scratch != "" {
+	if c.scratch != "" && os.Getenv("VERIF_KEEP_SCRATCH") == "" {
 		_ = os.RemoveAll(c.scratch)
 	}
 	root := Root()
